@@ -22,7 +22,8 @@ from .engine import Outcome
 class Task(object):
 
     def __init__(self, name, fn, cases=None, tier='quick', covers=(), canaries=(),
-                 timeout_ms=None, functions=(), bounded=False, max_seconds=None):
+                 timeout_ms=None, functions=(), bounded=False, max_seconds=None,
+                 samples=(2000, 40000), scope=''):
         self.name = name
         self.fn = fn
         self.cases = cases if cases is not None else [{}]
@@ -33,6 +34,8 @@ class Task(object):
         self.functions = tuple(functions)   # functions whose contract this task states
         self.bounded = bounded
         self.max_seconds = max_seconds
+        self.samples = samples      # bounded tasks: number of sampled inputs (quick, thorough)
+        self.scope = scope          # bounded tasks: stated bound
 
 
 def repo_root():
